@@ -503,4 +503,342 @@ Section Sound.
     - split; auto.
     - split; auto.
   Qed.
+
+  (* ---- blocks, phis, edges *)
+  Lemma block_sound tb l : forall s r r1,
+    covers s r -> env_wf r -> exec_list f tb r l r1 ->
+    covers (fold_left (process_instr f tb) l s) r1 /\ env_wf r1.
+  Proof.
+    induction l; intros s r r1 C W E; inversion E; subst; simpl.
+    - auto.
+    - destruct (transfer_sound tb s r a r2 C W H2) as [C1 W1]. eapply IHl; eauto.
+  Qed.
+
+  Lemma phis_fold_sound (l : list (nat * list nat * vn * shape)) : forall acc racc,
+    covers acc racc -> env_wf racc ->
+    (forall p, In p l -> ptr f (fst (fst (fst p))) = true -> gamma (snd (fst p)) (snd p) = true) ->
+    covers (fold_left (fun a p => sset f a (fst (fst (fst p))) (snd (fst p))) l acc)
+           (fold_left (fun a p => eset a (fst (fst (fst p))) (if ptr f (fst (fst (fst p))) then snd p else SNon)) l racc) /\
+    env_wf (fold_left (fun a p => eset a (fst (fst (fst p))) (if ptr f (fst (fst (fst p))) then snd p else SNon)) l racc).
+  Proof.
+    induction l as [|p l IH]; intros acc racc C W G; simpl; auto.
+    apply IH.
+    - apply covers_set; auto. intros P. rewrite P. apply G; simpl; auto.
+    - apply env_wf_eset; auto. intros P. rewrite P. reflexivity.
+    - intros q Hq. apply G. simpl; auto.
+  Qed.
+
+  Definition quads (g : nat * list nat -> vn) (phis : list (nat * list nat)) (shs : list shape) :=
+    map (fun ps : (nat * list nat) * shape => (fst ps, g (fst ps), snd ps)) (combine phis shs).
+
+  Lemma fold_sset_quads g phis : forall shs acc, length shs = length phis ->
+    fold_left (fun acc (pv : (nat * list nat) * vn) => sset f acc (fst (fst pv)) (snd pv)) (combine phis (map g phis)) acc =
+    fold_left (fun a (p : (nat * list nat) * vn * shape) => sset f a (fst (fst (fst p))) (snd (fst p))) (quads g phis shs) acc.
+  Proof.
+    induction phis as [|p ps IH]; intros shs acc Len; destruct shs; simpl in *; try discriminate; auto.
+    apply IH. lia.
+  Qed.
+
+  Lemma fold_eset_quads g phis : forall shs racc, length shs = length phis ->
+    fold_left (fun acc (ps : (nat * list nat) * shape) => eset acc (fst (fst ps)) (if ptr f (fst (fst ps)) then snd ps else SNon))
+              (combine phis shs) racc =
+    fold_left (fun a (p : (nat * list nat) * vn * shape) =>
+                 eset a (fst (fst (fst p))) (if ptr f (fst (fst (fst p))) then snd p else SNon)) (quads g phis shs) racc.
+  Proof.
+    induction phis as [|p ps IH]; intros shs racc Len; destruct shs; simpl in *; try discriminate; auto.
+    apply IH. lia.
+  Qed.
+
+  Lemma combine_nth_error {A B} (la : list A) : forall (lb : list B) a b d, length lb = length la ->
+    In (a, b) (combine la lb) -> exists k, nth_error la k = Some a /\ nth k lb d = b.
+  Proof.
+    induction la as [|a0 la IH]; intros lb a b d Len Hin; destruct lb; simpl in *; try discriminate; [tauto|].
+    destruct Hin as [H|H].
+    - inversion H; subst. exists 0. auto.
+    - destruct (IH lb a b d ltac:(lia) H) as (k & K1 & K2). exists (S k). auto.
+  Qed.
+
+  Lemma phi_sound to idx s1 r1 r' :
+    covers s1 r1 -> env_wf r1 -> phi_assign f to idx r1 r' ->
+    covers (process_phis f to idx s1) r' /\ env_wf r'.
+  Proof.
+    intros C W (shs & Len & Rd & ->). unfold process_phis.
+    set (g := fun p : nat * list nat => sget f s1 (nth idx (snd p) 0)).
+    rewrite (fold_sset_quads g _ shs s1 Len), (fold_eset_quads g _ shs r1 Len).
+    apply phis_fold_sound; auto.
+    intros q Hq P. unfold quads in Hq. apply in_map_iff in Hq. destruct Hq as ([p sh] & <- & Hin). simpl in *.
+    destruct (combine_nth_error _ _ p sh SNon Len Hin) as (k & Hp & <-).
+    unfold g. eapply sget_gamma; eauto.
+  Qed.
+
+  Lemma edge_sound a b s r r' :
+    covers s r -> env_wf r -> edge_step f a b r r' -> covers (ntransfer f a b s) r' /\ env_wf r'.
+  Proof.
+    intros C W (_ & r1 & E & P). unfold ntransfer.
+    destruct (block_sound _ _ _ _ _ C W E) as [C1 W1].
+    eapply phi_sound; eauto.
+  Qed.
+
+  (* ---- monotone transport of covering along the lattice order of state vectors *)
+  Lemma covers_leq s s' r : covers s r -> @leq st NilStateSemilattice s s' -> covers s' r.
+  Proof.
+    intros C L v sh R P. destruct (C v sh R P) as [Lt G].
+    assert (Lv : leq (nth v s vident) (nth v s' vident)).
+    { pose proof (proj1 (@dense_leq_spec vn VNSemilattice VNLaws s s') L v) as H. exact H. }
+    pose proof (gamma_mono _ _ sh Lv G) as G'. split; auto.
+    destruct (Nat.lt_ge_cases v (length s')); auto.
+    rewrite nth_overflow in G' by auto. rewrite gamma_ident in G'. discriminate.
+  Qed.
+
+  (* ---- the entry state *)
+  Lemma entry_state_covers r0 : init_env_ok f r0 -> covers (entry_state f) r0 /\ env_wf r0.
+  Proof.
+    intros I. split.
+    - unfold entry_state.
+      assert (J : forall l s,
+        (forall v, (v < length s /\ nth v s vident = seed_value f v) \/ True) ->
+        forall v, In v l -> ptr f v = true -> seed_value f v <> vident ->
+        let s' := fold_left (fun s v => sset f s v (seed_value f v)) l s in
+        v < length s' /\ nth v s' vident = seed_value f v).
+      { induction l as [|w l IH]; intros s _ v Hin P NE; simpl in *; [tauto|].
+        destruct (in_dec Nat.eq_dec v l) as [Hl|Hl].
+        - apply IH; auto.
+        - destruct Hin as [->|]; [|tauto].
+          (* v is set now and not touched afterwards *)
+          assert (K : forall l0 s0, ~ In v l0 -> v < length s0 ->
+                     let s' := fold_left (fun s v => sset f s v (seed_value f v)) l0 s0 in
+                     v < length s' /\ nth v s' vident = nth v s0 vident).
+          { induction l0 as [|u l0 IH0]; intros s0 Hn Lt; simpl; auto.
+            assert (Hu : u <> v) by (intros ->; apply Hn; simpl; auto).
+            assert (Hl0 : ~ In v l0) by (intros H; apply Hn; simpl; auto).
+            assert (A : v < length (sset f s0 u (seed_value f u)) /\
+                        nth v (sset f s0 u (seed_value f u)) vident = nth v s0 vident).
+            { unfold sset. destruct (negb (ptr f u)); auto. destruct (vn_eqb (seed_value f u) vident); auto.
+              split. - rewrite length_dset. lia. - apply nth_dset_neq. auto. }
+            destruct A as [A1 A2]. destruct (IH0 _ Hl0 A1) as [B1 B2]. split; auto. rewrite B2. exact A2. }
+          assert (A : v < length (sset f s v (seed_value f v)) /\ nth v (sset f s v (seed_value f v)) vident = seed_value f v).
+          { unfold sset. rewrite P. simpl. destruct (vn_eqb (seed_value f v) vident) eqn:E.
+            - apply vn_eqb_eq in E. congruence.
+            - split. + rewrite length_dset. lia. + apply nth_dset_eq. }
+          destruct A as [A1 A2]. destruct (K l _ Hl A1) as [B1 B2]. split; auto. rewrite B2. exact A2. }
+      intros v sh R P. specialize (I v). rewrite R in I. destruct I as (WS & Seed & K).
+      assert (G : gamma (seed_value f v) sh = true).
+      { unfold seed_value. destruct (vk (vi f v)).
+        - apply gamma_MM.
+        - subst sh. reflexivity.
+        - subst sh. reflexivity.
+        - subst sh. reflexivity.
+        - subst sh. unfold nil_shape_of. unfold ptr in P. rewrite P. simpl. destruct (v_iface (vi f v)); reflexivity.
+        - destruct K. congruence.
+        - destruct K. }
+      assert (NE : seed_value f v <> vident) by (intros E; rewrite E, gamma_ident in G; discriminate).
+      destruct (J (f_seed f) [] (fun _ => or_intror Logic.I) v (Seed P) P NE) as [L E].
+      split; auto. rewrite E. exact G.
+    - intros v sh R P. specialize (I v). rewrite R in I. destruct I as (WS & _). eapply wf_shape_nonptr; eauto.
+  Qed.
+
+  (* ---- the CFG of f as seen by the dense solver *)
+  Lemma succs_of_fsuccs a : succs_of (fsuccs f) a = b_succs (blk f a).
+  Proof.
+    unfold succs_of, fsuccs, blk.
+    change (@nil nat) with (b_succs (mkB [] [] [])). apply map_nth.
+  Qed.
+
+  Lemma nn_fsuccs : nn (fsuccs f) = length (f_blocks f).
+  Proof. unfold nn, fsuccs. apply map_length. Qed.
+
+  Hypothesis WF : wf_func_b f = true.
+
+  Lemma wf_blocks a : a < length (f_blocks f) ->
+    forall b, In b (b_succs (blk f a)) -> b < length (f_blocks f).
+  Proof.
+    intros Ha b Hb. unfold wf_func_b in WF. rewrite !andb_true_iff in WF. destruct WF as [[_ H] _].
+    rewrite forallb_forall in H. specialize (H a). rewrite in_seq in H. specialize (H ltac:(lia)).
+    rewrite !andb_true_iff in H. destruct H as [[[[[[H _] _] _] _] _] _].
+    rewrite forallb_forall in H. specialize (H b Hb). apply andb_true_iff in H. destruct H as [H _].
+    apply Nat.ltb_lt in H. exact H.
+  Qed.
+
+  Lemma wf_graph_f : wf_graph (fsuccs f).
+  Proof.
+    intros a i Ha Hi. rewrite nn_fsuccs in *. unfold succ_at. unfold outdeg in Hi.
+    rewrite succs_of_fsuccs in *. apply wf_blocks with (a := a); auto. apply nth_In. exact Hi.
+  Qed.
+
+  (* ---- mfp_covers_paths *)
+  Variable sol : @state st.
+  Hypothesis FIX : is_fixpoint_b (fsuccs f) (ntransfer f) (nentry f) (get_in sol) (get_out sol) = true.
+
+  Lemma fix_in b : b < length (f_blocks f) ->
+    eqv (get_in sol b) (in_eq (fsuccs f) (nentry f) (get_out sol) b) = true.
+  Proof.
+    intros Hb. unfold is_fixpoint_b in FIX. rewrite forallb_forall in FIX. specialize (FIX b).
+    rewrite in_seq, nn_fsuccs in FIX. specialize (FIX ltac:(lia)). apply andb_true_iff in FIX. apply FIX.
+  Qed.
+
+  Lemma fix_out b i : b < length (f_blocks f) -> i < outdeg (fsuccs f) b ->
+    eqv (get_out sol b i) (ntransfer f b (succ_at (fsuccs f) b i) (get_in sol b)) = true.
+  Proof.
+    intros Hb Hi. unfold is_fixpoint_b in FIX. rewrite forallb_forall in FIX. specialize (FIX b).
+    rewrite in_seq, nn_fsuccs in FIX. specialize (FIX ltac:(lia)). apply andb_true_iff in FIX. destruct FIX as [_ H].
+    rewrite forallb_forall in H. apply H. apply in_seq. lia.
+  Qed.
+
+  Theorem mfp_covers_paths r0 b r :
+    init_env_ok f r0 -> reach f r0 b r -> b < length (f_blocks f) ->
+    covers (get_in sol b) r /\ env_wf r.
+  Proof.
+    intros I R. induction R as [| a b r r' R IH E]; intros Hb.
+    - destruct (entry_state_covers r0 I) as [C W]. split; auto.
+      pose proof Hb as H0.
+      {        pose proof (fix_in 0 H0) as FI.
+        assert (P0 : preds (fsuccs f) 0 = []).
+        { destruct (preds (fsuccs f) 0) as [|[p i] l] eqn:Pr; auto. exfalso.
+          assert (Hin : In (p, i) (preds (fsuccs f) 0)) by (rewrite Pr; simpl; auto).
+          apply (In_preds (fsuccs f) (ntransfer f) (nentry f)) in Hin. destruct Hin as (Hp & Hi & Hs). rewrite nn_fsuccs in Hp.
+          unfold wf_func_b in WF. rewrite !andb_true_iff in WF. destruct WF as [[WF0 H] _].
+          rewrite forallb_forall in H. specialize (H p). rewrite in_seq in H. specialize (H ltac:(lia)).
+          rewrite !andb_true_iff in H. destruct H as [[[[[[H _] _] _] _] _] _].
+          rewrite forallb_forall in H. unfold succ_at, outdeg in *. rewrite succs_of_fsuccs in *.
+          assert (In0 : In 0 (b_succs (blk f p))) by (rewrite <- Hs; apply nth_In; exact Hi).
+          specialize (H 0 In0).
+          apply andb_true_iff in H. destruct H as [_ H]. apply existsb_exists in H. destruct H as (x & Hx & _).
+          destruct (b_preds (blk f 0)); [destruct Hx | discriminate]. }
+        unfold in_eq in FI. rewrite P0 in FI. unfold entry0, nentry in FI. simpl in FI.
+        eapply covers_leq; eauto. apply eqv_leq. apply eqv_sym. exact FI.
+      }
+    - destruct E as (Hin & E).
+      assert (Ha : a < length (f_blocks f)).
+      { destruct (Nat.lt_ge_cases a (length (f_blocks f))); auto. exfalso.
+        unfold blk in Hin. rewrite nth_overflow in Hin by auto. simpl in Hin. exact Hin. }
+      assert (Hb' : b < length (f_blocks f)) by (eapply wf_blocks; eauto).
+      destruct (IH Ha) as [C W].
+      destruct (edge_sound a b _ r r' C W (conj Hin E)) as [C1 W1]. split; auto.
+      destruct (In_nth _ _ 0 Hin) as (i & Hi & Hnth).
+      assert (Hi' : i < outdeg (fsuccs f) a) by (unfold outdeg; rewrite succs_of_fsuccs; exact Hi).
+      assert (Hs : succ_at (fsuccs f) a i = b) by (unfold succ_at; rewrite succs_of_fsuccs; exact Hnth).
+      pose proof (fix_out a i Ha Hi') as FO. rewrite Hs in FO.
+      pose proof (fix_in b Hb') as FI.
+      assert (Pin : In (a, i) (preds (fsuccs f) b)).
+      { apply (In_preds (fsuccs f) (ntransfer f) (nentry f)). rewrite nn_fsuccs. auto. }
+      unfold in_eq in FI. destruct (preds (fsuccs f) b) as [|e l] eqn:Pr; [destruct Pin|].
+      eapply covers_leq; [exact C1|].
+      eapply leq_trans; [apply eqv_leq; apply eqv_sym; exact FO|].
+      eapply leq_trans; [| apply eqv_leq; apply eqv_sym; exact FI].
+      apply big_merge_ub.
+      change (get_out sol a i) with ((fun e : nat * nat => get_out sol (fst e) (snd e)) (a, i)).
+      apply in_map. exact Pin.
+  Qed.
+
+  Lemma nth_map_seq {B} (g : nat -> B) n k d : k < n -> nth k (map g (seq 0 n)) d = g k.
+  Proof.
+    intros Hk. rewrite (nth_indep _ d (g 0)) by (rewrite map_length, seq_length; exact Hk).
+    rewrite (map_nth g). rewrite seq_nth by exact Hk. reflexivity.
+  Qed.
+
+  (* ---- the merged return state covers every normal return *)
+  Lemma merge_rets_ge ins b rs k :
+    b < length (f_blocks f) -> block_returns (blk f b) = Some rs -> k < length (f_results f) ->
+    leq (sget f (process_block f b None (ins b)) (nth k rs 0)) (nth k (merge_rets f ins) vident).
+  Proof.
+    intros Hb BR Hk. unfold merge_rets.
+    set (step := fun acc b0 =>
+      match block_returns (blk f b0) with
+      | Some rs0 =>
+          let s := process_block f b0 None (ins b0) in
+          map (fun k0 => merge (nth k0 acc vident) (sget f s (nth k0 rs0 0))) (seq 0 (length (f_results f)))
+      | None => acc
+      end).
+    assert (Mono : forall l acc, leq (nth k acc vident) (nth k (fold_left step l acc) vident)).
+    { induction l as [|b0 l IH]; intros acc; simpl; [apply leq_refl|].
+      eapply leq_trans; [| apply IH].
+      unfold step. destruct (block_returns (blk f b0)); [| apply leq_refl].
+      rewrite nth_map_seq by exact Hk. apply merge_ub_l. }
+    assert (Hit : forall l acc, In b l ->
+              leq (sget f (process_block f b None (ins b)) (nth k rs 0)) (nth k (fold_left step l acc) vident)).
+    { induction l as [|b0 l IH]; intros acc Hin; simpl; [destruct Hin|].
+      destruct Hin as [->|Hin]; [| apply IH; exact Hin].
+      eapply leq_trans; [| apply Mono].
+      unfold step. rewrite BR.
+      rewrite nth_map_seq by exact Hk. apply merge_ub_r. }
+    apply Hit. apply in_seq. lia.
+  Qed.
+
+  Lemma nth_map_combine_seq {A B} (g : nat * A -> B) (l : list A) k d dA :
+    k < length l -> nth k (map g (combine (seq 0 (length l)) l)) d = g (k, nth k l dA).
+  Proof.
+    intros Hk.
+    rewrite (nth_indep _ d (g (0, dA))) by (rewrite map_length, combine_length, seq_length; lia).
+    rewrite (map_nth g). rewrite combine_nth by (rewrite seq_length; reflexivity).
+    rewrite seq_nth by exact Hk. reflexivity.
+  Qed.
+
+  Lemma nth_map_combine {A B C} (g : A * B -> C) (la : list A) (lb : list B) k d dA dB :
+    k < length la -> k < length lb -> nth k (map g (combine la lb)) d = g (nth k la dA, nth k lb dB).
+  Proof.
+    revert lb k. induction la as [|a la IH]; intros lb k H1 H2; destruct lb; simpl in *; try lia.
+    destruct k; auto. apply IH; lia.
+  Qed.
+
+  Lemma ret_facts_length ins : length (ret_facts f ins) = length (f_results f).
+  Proof. unfold ret_facts. rewrite map_length, combine_length, seq_length. lia. Qed.
+
+  (* nilness_sound, for a solution of the flow equations *)
+  Theorem nilness_sound_fix r0 k sh :
+    init_env_ok f r0 -> returns f r0 k sh -> k < length (f_results f) ->
+    fst (nth k (f_results f) (false, false)) = true ->
+    gamma (nth k (observable f (ret_facts f (get_in sol))) MM) sh = true.
+  Proof.
+    intros I (b & r & r1 & rs & R & BR & E & Rk) Hk Pk.
+    assert (Hb : b < length (f_blocks f)).
+    { destruct (Nat.lt_ge_cases b (length (f_blocks f))); auto. exfalso.
+      unfold blk in BR. rewrite nth_overflow in BR by auto. simpl in BR. discriminate. }
+    destruct (mfp_covers_paths r0 b r I R Hb) as [C W].
+    destruct (block_sound None _ _ _ _ C W E) as [C1 W1].
+    pose proof (sget_gamma _ _ _ _ C1 W1 Rk) as G.
+    pose proof (merge_rets_ge (get_in sol) b rs k Hb BR Hk) as L.
+    pose proof (gamma_mono _ _ sh L G) as G2.
+    unfold observable.
+    rewrite (nth_map_combine _ _ _ k MM vident (false, false)) by (rewrite ?ret_facts_length; lia).
+    destruct (nth k (f_results f) (false, false)) as [p ifc] eqn:Rs. simpl in Pk. subst p. simpl.
+    destruct (interesting f (ret_facts f (get_in sol))); [| apply gamma_MM].
+    apply gamma_normalize.
+    unfold ret_facts. rewrite (nth_map_combine_seq _ _ k vident (false, false)) by exact Hk.
+    rewrite Rs. simpl. apply gamma_normalize. exact G2.
+  Qed.
 End Sound.
+
+(* ------------------------------------------------------------------ end to end *)
+Theorem nilness_sound_run (f : func) (pick : list nat -> nat) (fuel : nat) (facts : list vn) (r0 : env) (k : nat) (sh : shape) :
+  wf_func_b f = true ->
+  analyse f pick fuel = Some facts ->
+  init_env_ok f r0 -> returns f r0 k sh -> k < length (f_results f) ->
+  fst (nth k (f_results f) (false, false)) = true ->
+  gamma (nth k facts MM) sh = true.
+Proof.
+  intros WF A I R Hk Pk. unfold analyse, nil_solve in A.
+  destruct (run (fsuccs f) (ntransfer f) pick fuel (init (fsuccs f) (nentry f))) as [s|] eqn:Run; [| discriminate].
+  inversion A; subst facts.
+  destruct (run_steps (fsuccs f) (ntransfer f) pick fuel _ _ Run) as (picks & St & Wk).
+  destruct (@dense_fixpoint_steps st NilStateSemilattice NilStateLaws (fsuccs f) (ntransfer f) (nentry f)
+              (wf_graph_f f WF) picks s St Wk) as [_ FIX].
+  eapply nilness_sound_fix; eauto.
+Qed.
+
+(* ------------------------------------------------------------------ SA4023 *)
+Require Import Verif.Gen.C15_SA4023 Verif.Model.C15_Check.
+
+(* finite, on the regenerated guard of staticcheck/sa4023/sa4023.go *)
+Lemma sa4023_guard_ok : nil_eqb gen_sa4023_outer NeverNil = true.
+Proof. reflexivity. Qed.
+
+Lemma sa4023_sound_flags (x : vn) sh : sa4023_flags x = true -> gamma x sh = true -> outer_nil sh = false.
+Proof.
+  unfold sa4023_flags. intros Fl G.
+  pose proof sa4023_guard_ok as K. apply nil_eqb_eq in K. rewrite K in Fl. apply nil_eqb_eq in Fl.
+  unfold gamma in G. apply andb_true_iff in G. destruct G as [_ G]. rewrite Fl in G. simpl in G.
+  apply negb_true_iff in G. exact G.
+Qed.
+
+Lemma merge_sound (a b : vn) sh : gamma a sh = true \/ gamma b sh = true -> gamma (merge a b) sh = true.
+Proof. intros [H|H]; [apply merge_sound_l | apply merge_sound_r]; exact H. Qed.
